@@ -60,6 +60,14 @@ fn main() {
             run.violation(v);
         }
     }
+    // ---- medium-scale deterministic differential runs (not exhaustive; catch scale-dependent defects) ----
+    {
+        let (ms, mv, mj) = checks::medium::run_all(&["qf"], run.thorough(), checks::par::n_threads());
+        run.ev.set("medium_scale_runs", json!({"configurations": mj, "operations": ms.ops, "reference_comparisons": ms.comparisons, "note": "long structured histories on tables of 64..4096 slots against an exact reference; complements the exhaustive tiny-scope search, not part of the exhaustive claim"}));
+        for v in mv {
+            run.violation(v);
+        }
+    }
     run.ev.set("exhaustive", json!(all_closed));
     run.ev.set("samples", json!([
         {"config": "qf(q=2,r=1)", "history": ["insert(0b011)", "insert(0b010)", "insert(0b111)", "insert(0b110)", "insert(0b001) -> Err(Full)"], "checked": "query on all 8 fingerprints + 8 high-bit variants, len, result kind after every step"}
